@@ -121,10 +121,12 @@ def observe_ds(ds, take=None):
             'ginsame': ginsame}
 
 
-def observe(api, timeout=20.0):
+def observe(api, timeout=20.0, touch=False):
     """Observation of one API program; a program that does not come back
     within `timeout` seconds - and, tried again, not within three times that
     (a loaded machine is not a hang) - is reported as build = 'HANG'."""
+    from . import build as _b
+    _b.TOUCH[0] = bool(touch)
     for t in (timeout, 3 * timeout):
         try:
             r = _observe_once(api, t)
